@@ -21,7 +21,7 @@ FILE_CASES = [("file", "none"), ("file", "one"), ("file", "default")]
 
 
 def _thr_value(code, n, default):
-    return {"none": None, "one": 1, "len": n, "len+1": n + 1, "default": default}[code]
+    return {"none": None, "zero": 0, "one": 1, "len": n, "len+1": n + 1, "default": default}[code]
 
 
 PER_KEY = 3
@@ -117,7 +117,12 @@ def run_case(res, recipe, case, tmpdir, count=True):
 
     kind, code = case[0], case[1]
     inp = {"recipe": recipe, "case": [kind, code]}
-    ds = U.build(recipe)
+    if recipe.get("kind") == "empty":
+        from maze_dataset.dataset.maze_dataset import MazeDatasetConfig
+
+        ds = MazeDataset(cfg=MazeDatasetConfig(name=recipe.get("name", "empty"), grid_n=int(recipe["grid_n"]), n_mazes=int(recipe.get("n_cfg", 0))), mazes=[])
+    else:
+        ds = U.build(recipe)
     n = len(ds)
     orig_arrays = U.arrays_of(ds)
     pre_snap = U.snapshot(ds)
@@ -143,7 +148,7 @@ def run_case(res, recipe, case, tmpdir, count=True):
             if kind == "threshold":
                 data = ds.serialize()
                 fmt_got = {"MazeDataset": "full", "MazeDataset:minimal": "minimal", "MazeDataset:minimal_soln_cat": "soln_cat"}.get(data["__format__"], data["__format__"])
-                if fmt_got != want_fmt:
+                if fmt_got != want_fmt and n > 0:  # (for an empty dataset any format that survives the round trip is acceptable)
                     _fail(res, "C05:threshold:format-selection", f"threshold {thr}, {n} mazes: serialize() chose {fmt_got}, documented {want_fmt}", inp, fmt_got)
                 loaded = MazeDataset.load(data)
             elif kind == "full":
@@ -164,21 +169,25 @@ def run_case(res, recipe, case, tmpdir, count=True):
                 raise ValueError(kind)
     except Exception as e:  # noqa: BLE001
         tb = traceback.format_exc(limit=4)
-        if want_fmt != "full" and not has_meta:
+        if n == 0:
+            _fail(res, "C05:empty-dataset:raised", f"an empty dataset cannot be written/read under threshold {thr} ({kind}): {type(e).__name__}: {str(e)[:120]}", inp, tb[-400:])
+        elif want_fmt != "full" and not has_meta:
             _fail(res, "C05:serialize:no-metadata", f"dataset without per-maze and without collected metadata cannot be written when the threshold selects the minimal format: {type(e).__name__}: {str(e)[:120]}", inp, tb[-400:])
         else:
             _fail(res, f"{pre}:raised", f"{kind}/{code} round trip ({want_fmt}) raised {type(e).__name__}: {str(e)[:160]}", inp, tb[-600:])
         return
+    if n == 0 and kind in ("threshold", "file"):
+        want_fmt = "full"  # nothing to collect or pad: compare as a plain round trip
     fmt_used = f"{want_fmt} format" + (f" selected by threshold={thr}" if kind in ("threshold", "file") else " (explicit)") + (" through a .zanj file" if kind == "file" else " in memory")
     compare_dataset(res, pre, orig_arrays, pre_snap, pre_meta, ds, loaded, inp, fmt_used, want_fmt != "full")
 
 
 # --------------------------------------------------------------------------------------------- collections
-def run_collection(res, member_recipes, thr_code, via, tmpdir, count=True):
+def run_collection(res, member_recipes, thr_code, via, tmpdir, count=True, cfgmode="own"):
     from maze_dataset.dataset.collected_dataset import MazeDatasetCollection, MazeDatasetCollectionConfig
     from maze_dataset.dataset.maze_dataset import MazeDataset, MazeDatasetConfig
 
-    inp = {"collection": member_recipes, "threshold": thr_code, "via": via}
+    inp = {"collection": member_recipes, "threshold": thr_code, "via": via, "cfgmode": cfgmode}
     pre = "C05:collection" if via == "memory" else "C05:collection-file"
     members = []
     for r in member_recipes:
@@ -190,10 +199,15 @@ def run_collection(res, member_recipes, thr_code, via, tmpdir, count=True):
     any_empty = any(len(m) == 0 for m in members)
     fmt_used = ("full" if thr != 1 else "minimal") + f" member format (threshold={thr}), {'file' if via == 'file' else 'memory'}" + (", with an empty member" if any_empty else "")
     if count:
-        res.seen((json.dumps(member_recipes, sort_keys=True), thr_code, via), nontrivial=True, sample={"members": [r.get("gen", r["kind"]) for r in member_recipes], "threshold": thr_code, "via": via})
+        res.seen((json.dumps(member_recipes, sort_keys=True), thr_code, via, cfgmode), nontrivial=True, sample={"members": [r.get("gen", r["kind"]) for r in member_recipes], "threshold": thr_code, "via": via, "cfgmode": cfgmode})
     snaps = [(U.arrays_of(m), U.snapshot(m), [U.copy_meta(x.generation_meta) for x in m.mazes] if len(m) and all(x.generation_meta is not None for x in m.mazes) else None) for m in members]
     try:
-        coll = MazeDatasetCollection(cfg=MazeDatasetCollectionConfig(name="coll", maze_dataset_configs=[m.cfg for m in members]), maze_datasets=members)
+        # "own": the collection config holds the members' own config objects; "copy": equal but distinct objects, which is what
+        # MazeDatasetCollection.generate() / load() produce (every member dataset owns a copy of its config)
+        import copy as _copy
+
+        cfgs = [m.cfg if cfgmode == "own" else _copy.deepcopy(m.cfg) for m in members]
+        coll = MazeDatasetCollection(cfg=MazeDatasetCollectionConfig(name="coll", maze_dataset_configs=cfgs), maze_datasets=members)
     except Exception as e:  # noqa: BLE001
         res.errors.append(f"could not build a collection from {member_recipes}: {type(e).__name__}: {e}")
         return
@@ -257,6 +271,9 @@ def dataset_recipes(tier, rng):
                 if tier != "thorough" and meta != "permaze" and name not in ("mixed", "len1", "len2", "longest-last"):
                     continue
                 out.append({"kind": "hand", "name": f"hand-{name}", "grid_n": g, "lengths": lengths, "seed": int(rng.integers(0, 10 ** 6)), "meta": meta})
+    # empty datasets (stale configured count too)
+    out.append({"kind": "empty", "name": "empty-ds", "grid_n": 3})
+    out.append({"kind": "empty", "name": "empty-ds-stale-count", "grid_n": 2, "n_cfg": 5})
     # at / around the default threshold of 100 with a small grid
     out.append({"kind": "gen", "gen": "gen_dfs", "grid_n": 2, "n": 120, "seed": 5, "meta": "permaze"})
     out.append({"kind": "gen", "gen": "gen_wilson", "grid_n": 3, "n": 100, "seed": 6, "meta": "collected"})
@@ -282,11 +299,14 @@ def collection_cases(tier):
     for grp in groups:
         for thr in ("none", "one", "big"):
             for via in ("memory", "file"):
-                cases.append((grp, thr, via))
+                cases.append((grp, thr, via, "own"))
+                if via == "memory" or thr == "one":
+                    cases.append((grp, thr, via, "copy"))
     for grp in ([a, empty], [empty, d], [empty], [b, empty, e], [e, a]):
-        for thr in ("none", "big"):
+        for thr in ("none", "big", "one"):
             for via in ("memory", "file"):
-                cases.append((grp, thr, via))
+                cases.append((grp, thr, via, "own"))
+        cases.append((grp, "one", "memory", "copy"))
     return cases
 
 
@@ -300,7 +320,7 @@ def run(tier, seed):
         "C05.dataset-roundtrip",
         rule="datasets from all five generators x grid_n 2..6 x lengths "
         + ("1..8" if tier == "thorough" else "a subset of 1..8 per grid")
-        + " plus 99/100/101/120 mazes around the default threshold, and hand-made SolvedMaze lists (mixed lengths, length-1 start==end, length-2, longest first/last, "
+        + " plus 99/100/101/120 mazes around the default threshold, EMPTY datasets under thresholds {None,0,1,default} in memory and through a file, and hand-made SolvedMaze lists (mixed lengths, length-1 start==end, length-2, longest first/last, "
         "all-equal, full-grid snakes); metadata modes per-maze / collected / none / empty-collected; EACH written and read back as: "
         "serialize()+load() under set_serialize_minimal_threshold in {None,1,len,len+1} (selected format checked: minimal iff threshold is not None and len>=threshold), "
         "explicit _serialize_full/_load_full, _serialize_minimal/_load_minimal, _serialize_minimal_soln_cat/_load_minimal_soln_cat (explicit minimal formats skipped for "
@@ -313,8 +333,8 @@ def run(tier, seed):
     res2 = BoundedResult(
         "C05.collection-roundtrip",
         rule="MazeDatasetCollection of 1..4 member datasets (different generators, grids, metadata modes, a hand-made member) x member format selected by threshold "
-        "{None: full, 1: minimal, 10^6: full} x {load(serialize()), save()/read() through a .zanj file}; collections containing an EMPTY member dataset only where the full "
-        "format is selected; compared member by member exactly like single datasets plus the collection configuration",
+        "{None: full, 1: minimal, 10^6: full} x {load(serialize()), save()/read() through a .zanj file} x collection config holding {the members' own config objects, equal "
+        "copies of them (as after generate()/load())}; collections containing an EMPTY member dataset under all three thresholds; compared member by member exactly like single datasets plus the collection configuration",
         exhaustive=False,
         functions=["MazeDatasetCollection.serialize", "MazeDatasetCollection.load", "MazeDatasetCollectionConfig"],
     )
@@ -324,8 +344,11 @@ def run(tier, seed):
     try:
         for recipe in dataset_recipes(tier, rng):
             big = (recipe.get("n", 0) or len(recipe.get("lengths", []))) >= 99
-            for case in MEM_CASES + FILE_CASES:
-                if case == ("file", "default") and not big and tier != "thorough":
+            cases = MEM_CASES + FILE_CASES
+            if recipe.get("kind") == "empty":
+                cases = [("threshold", "none"), ("threshold", "zero"), ("threshold", "one"), ("full", None), ("file", "none"), ("file", "zero"), ("file", "default")]
+            for case in cases:
+                if case == ("file", "default") and not big and tier != "thorough" and recipe.get("kind") != "empty":
                     continue
                 try:
                     run_case(res, recipe, case, tmpdir)
@@ -338,9 +361,9 @@ def run(tier, seed):
     res.seconds = time.time() - t0
     t1 = time.time()
     try:
-        for grp, thr, via in collection_cases(tier):
+        for grp, thr, via, cfgmode in collection_cases(tier):
             try:
-                run_collection(res2, grp, thr, via, tmpdir)
+                run_collection(res2, grp, thr, via, tmpdir, cfgmode=cfgmode)
             except Exception as e:  # noqa: BLE001
                 res2.errors.append(f"{grp} {thr} {via}: {type(e).__name__}: {e}\n{traceback.format_exc(limit=5)}")
     finally:
@@ -358,7 +381,7 @@ def replay(check, inp):
     tmpdir = tempfile.mkdtemp(prefix="c05r_", dir="/var/tmp")
     try:
         if "collection" in inp:
-            run_collection(res, inp["collection"], inp["threshold"], inp["via"], tmpdir, count=False)
+            run_collection(res, inp["collection"], inp["threshold"], inp["via"], tmpdir, count=False, cfgmode=inp.get("cfgmode", "own"))
         else:
             case = inp["case"]
             run_case(res, inp["recipe"], (case[0], case[1]), tmpdir, count=False)
